@@ -48,8 +48,32 @@ def impl_env():
     return env
 
 
-def sh(cmd, timeout=600, cwd=None, env=None, inp=None):
+def _tscale():
+    """Every harness timeout is a guard against a hang, not a performance claim: scale it with the machine's load
+    (or VERIF_TIMEOUT_SCALE) so that a busy host does not turn into a false alarm."""
+    v = os.environ.get("VERIF_TIMEOUT_SCALE")
+    if v:
+        try:
+            return max(1.0, float(v))
+        except ValueError:
+            pass
+    try:
+        return max(1.0, min(8.0, 2.0 * os.getloadavg()[0] / (os.cpu_count() or 1)))
+    except OSError:
+        return 1.0
+
+
+TSCALE = _tscale()
+
+
+def _t(x):
+    return int(x * TSCALE)
+
+
+def sh(cmd, timeout=600, cwd=None, env=None, inp=None, scaled=False):
     """Run a command (list) under a timeout; returns (rc, stdout+stderr)."""
+    if not scaled:
+        timeout = _t(timeout)
     try:
         p = subprocess.run(cmd, cwd=cwd, env=env, input=inp, timeout=timeout,
                            stdout=subprocess.PIPE, stderr=subprocess.STDOUT, text=True)
@@ -97,6 +121,7 @@ class Ctx:
 
     def coq_make(self, targets, timeout=900):
         """make the given .vo targets (relative to coq/).  Returns (ok, log)."""
+        timeout = _t(timeout)
         with open(os.path.join(COQ, ".lock"), "w") as lk:
             fcntl.flock(lk, fcntl.LOCK_EX)
             changed = write_coq_project()
@@ -104,12 +129,13 @@ class Ctx:
                 rc, out = sh(["coq_makefile", "-f", "_CoqProject", "-o", "Makefile"], cwd=COQ)
                 if rc != 0:
                     return False, out
-            rc, out = sh(["timeout", str(timeout), "make", "-j16"] + list(targets), cwd=COQ, timeout=timeout + 30)
+            rc, out = sh(["timeout", str(timeout), "make", "-j16"] + list(targets), cwd=COQ, timeout=timeout + 30, scaled=True)
         return rc == 0, out
 
     def props(self, rel, timeout=600):
         """Compile a property file; every `Theorem`/`Lemma`/`Corollary` in it is an obligation.
         Returns True iff it compiled and every Print Assumptions is closed / allowed."""
+        timeout = _t(timeout)
         path = os.path.join(COQ, rel)
         src = open(path).read()
         names = re.findall(r"^\s*(?:Theorem|Lemma|Corollary)\s+([A-Za-z0-9_']+)", src, re.M)
@@ -117,7 +143,7 @@ class Ctx:
         forbidden = re.findall(r"\b(Admitted|admit|Axiom|Parameter|Conjecture|Abort)\b", re.sub(r"\(\*.*?\*\)", "", src, flags=re.S))
         with open(os.path.join(COQ, ".lock"), "w") as lk:
             fcntl.flock(lk, fcntl.LOCK_EX)
-            rc, out = sh(["timeout", str(timeout), "coqc", "-Q", ".", "RV", rel], cwd=COQ, timeout=timeout + 30)
+            rc, out = sh(["timeout", str(timeout), "coqc", "-Q", ".", "RV", rel], cwd=COQ, timeout=timeout + 30, scaled=True)
         ok_all = rc == 0 and not forbidden
         # parse Print Assumptions blocks in order
         blocks = re.split(r"(?m)^(?=Closed under the global context|Axioms:)", out)
@@ -149,8 +175,8 @@ class Ctx:
             mod = "RV." + rel[:-2].replace("/", ".")
             with open(os.path.join(COQ, ".lock"), "w") as lk:
                 fcntl.flock(lk, fcntl.LOCK_EX)
-                sh(["timeout", "900", "make", rel + "o"], cwd=COQ, timeout=930)
-            rc2, out2 = sh(["timeout", "1500", "coqchk", "-o", "-silent", "-Q", ".", "RV", mod], cwd=COQ, timeout=1530)
+                sh(["timeout", str(_t(900)), "make", rel + "o"], cwd=COQ, timeout=_t(900) + 30, scaled=True)
+            rc2, out2 = sh(["timeout", str(_t(1500)), "coqchk", "-o", "-silent", "-Q", ".", "RV", mod], cwd=COQ, timeout=_t(1500) + 30, scaled=True)
             m = re.search(r"\* Axioms:(.*?)\n\s*\n\s*\*", out2, re.S)
             axioms = m.group(1).strip() if m else "?"
             self.notes.append("coqchk -o %s: rc=%d axioms=%s" % (mod, rc2, axioms[:600]))
@@ -163,16 +189,18 @@ class Ctx:
         return ok_all, out
 
     def coq_eval(self, name, text, timeout=600):
+        timeout = _t(timeout)
         d = os.path.join(COQ, "Corr", "run_" + self.pid)
         os.makedirs(d, exist_ok=True)
         rel = os.path.join("Corr", "run_" + self.pid, name + ".v")
         with open(os.path.join(COQ, rel), "w") as f:
             f.write(text)
-        rc, out = sh(["timeout", str(timeout), "coqc", "-Q", ".", "RV", rel], cwd=COQ, timeout=timeout + 30)
+        rc, out = sh(["timeout", str(timeout), "coqc", "-Q", ".", "RV", rel], cwd=COQ, timeout=timeout + 30, scaled=True)
         return rc, out
 
     def coq_eval_many(self, items, timeout=600, par=12):
         """items: list of (name, text).  Runs coqc on each in parallel; returns {name: (rc, out)}."""
+        timeout = _t(timeout)
         d = os.path.join(COQ, "Corr", "run_" + self.pid)
         os.makedirs(d, exist_ok=True)
         procs = []
@@ -206,8 +234,9 @@ class Ctx:
     def impl(self, script, payload, timeout=900, args=()):
         """Run harness/impl/<script> under the repo's python; payload (JSON) on stdin; JSON on stdout
         (last line starting with 'RESULT ')."""
+        timeout = _t(timeout)
         path = os.path.join(VERIF, "harness", "impl", script)
-        rc, out = sh([IMPL_PY, path] + list(args), cwd="/", env=impl_env(), inp=json.dumps(payload), timeout=timeout)
+        rc, out = sh([IMPL_PY, path] + list(args), cwd="/", env=impl_env(), inp=json.dumps(payload), timeout=timeout, scaled=True)
         res = None
         for line in out.splitlines():
             if line.startswith("RESULT "):
@@ -219,6 +248,7 @@ class Ctx:
 
     def impl_par(self, script, payloads, timeout=900, par=14):
         """Run the same impl script on several payloads in parallel. Returns list of (rc,res,out)."""
+        timeout = _t(timeout)
         path = os.path.join(VERIF, "harness", "impl", script)
         out = [None] * len(payloads)
         pending = list(enumerate(payloads))
